@@ -136,3 +136,194 @@ Proof.
       * clear. induction qs; constructor; [exact I | assumption].
     + intros [= E]. exact (suffix_nonempty _ E).
 Qed.
+
+(* ------------------------------------------------------------------ unflatten *)
+(* a grouped axis is consistent when its length is the product of its members' lengths and its members are named *)
+Definition group_ok (ax : axis) : Prop :=
+  amem ax = [] \/ (alen ax = prod (map (fun m => List.length (mlab m)) (amem ax)) /\ ~ In "" (map mname (amem ax))).
+Definition groups_ok (a : darr) : Prop := Forall group_ok (axes a).
+
+Lemma unflatten_axes_prod axs : Forall group_ok axs -> prod (map alen (unflatten_axes axs)) = prod (map alen axs).
+Proof.
+  induction 1 as [|ax t Hg _ IH]; [reflexivity|]. cbn [unflatten_axes].
+  destruct (amem ax) as [|m ms] eqn:Em.
+  - simpl. rewrite IH. reflexivity.
+  - unfold group_ok in Hg. rewrite Em in Hg. destruct Hg as [Hg|[Hl _]]; [discriminate|]. rewrite map_app, prod_app, IH.
+    change (map alen (ax :: t)) with (alen ax :: map alen t). change (prod (alen ax :: map alen t)) with (alen ax * prod (map alen t)).
+    rewrite Hl. f_equal. rewrite map_map. reflexivity.
+Qed.
+
+Lemma unflatten_axes_names axs :
+  Forall group_ok axs -> ~ In "" (map aname axs) -> ~ In "" (map aname (unflatten_axes axs)).
+Proof.
+  induction 1 as [|ax t Hg _ IH]; intros Hn; [exact Hn|]. cbn [unflatten_axes].
+  assert (Ht : ~ In "" (map aname t)) by (intros H; apply Hn; right; exact H).
+  destruct (amem ax) as [|m ms] eqn:Em.
+  - cbn [map]. intros [E|H]; [apply Hn; left; exact E | exact (IH Ht H)].
+  - unfold group_ok in Hg. rewrite Em in Hg. destruct Hg as [Hg|[_ Hm]]; [discriminate|]. rewrite map_app. intros H. apply in_app_or in H. destruct H as [H|H].
+    + apply Hm. rewrite map_map in H. exact H.
+    + exact (IH Ht H).
+Qed.
+
+Theorem unflatten_wf a r : WF a -> groups_ok a -> unflatten a = Ok r -> WF r.
+Proof.
+  intros [[Hs Hd] [Hnd Hne]] Hg H. unfold unflatten in H.
+  destruct (nodupb String.eqb (map aname (unflatten_axes (axes a)))) eqn:En; [|discriminate].
+  cbn [negb] in H. injection H as <-. split; [split|split]; simpl.
+  - reflexivity.
+  - rewrite Hd, <- Hs. symmetry. apply unflatten_axes_prod. exact Hg.
+  - apply nodupb_str_NoDup. exact En.
+  - apply unflatten_axes_names; assumption.
+Qed.
+
+(* the axis flatten builds is consistent, so flatten then unflatten stays inside the well-formed arrays *)
+Lemma multi_axis_group_ok mems g : multi_axis mems = Ok g -> ~ In "" (map aname mems) -> group_ok g.
+Proof.
+  intros H Hn. right. destruct mems as [|m [|m2 t]].
+  - discriminate.
+  - injection H as <-. unfold alen. simpl. split; [lia | exact Hn].
+  - destruct (multi_axis_labels (m :: m2 :: t) g) as [atoms [Ha [_ [Hl Hm]]]]; [simpl; lia | exact H |].
+    rewrite Hm. split.
+    + unfold alen at 1. rewrite Hl, map_length, product_labels_length, (mapM_atoms_lengths _ _ Ha), !map_map. reflexivity.
+    + rewrite map_map. exact Hn.
+Qed.
+
+Theorem group_at_groups_ok names ins a r : WF a -> groups_ok a -> group_at names ins a = Ok r -> groups_ok r.
+Proof.
+  intros [_ [_ Hne]] Hg H. destruct (group_at_spec _ _ _ _ H) as [g [Hm [Hax _]]]. cbv zeta in Hm.
+  unfold groups_ok. rewrite Hax. unfold groups_ok in Hg.
+  apply Forall_app. split; [|apply Forall_app; split].
+  - apply Forall_forall. intros x Hx. rewrite Forall_forall in Hg. apply Hg. apply (in_firstn_ _ _ _ Hx).
+  - constructor; [|constructor]. apply (multi_axis_group_ok _ _ Hm).
+    intros Hin. apply Hne. unfold dims. apply in_map_iff in Hin. destruct Hin as [x [E Hx]].
+    apply in_map_iff. exists x. split; [exact E|]. apply (in_skipn_ ins). apply (in_firstn_ _ _ _ Hx).
+  - apply Forall_forall. intros x Hx. rewrite Forall_forall in Hg. apply Hg. apply (in_skipn_ _ _ _ Hx).
+Qed.
+
+(* the boolean form, used as the side condition of OUnflatten in the covered operation language *)
+Definition group_okb (ax : axis) : bool :=
+  match amem ax with
+  | [] => true
+  | ms => (alen ax =? prod (map (fun m => List.length (mlab m)) ms)) && negb (existsb (String.eqb "") (map mname ms))
+  end.
+Definition groups_okb (a : darr) : bool := forallb group_okb (axes a).
+Lemma groups_okb_ok a : groups_okb a = true -> groups_ok a.
+Proof.
+  unfold groups_okb, groups_ok. rewrite forallb_forall, Forall_forall. intros H x Hx. specialize (H x Hx).
+  unfold group_okb in H. unfold group_ok. destruct (amem x) as [|m ms]; [left; reflexivity|]. right.
+  apply andb_true_iff in H. destruct H as [H1 H2]. apply Nat.eqb_eq in H1. split; [exact H1|].
+  apply negb_true_iff in H2. intros Hin. apply existsb_str_In in Hin. rewrite Hin in H2. discriminate.
+Qed.
+
+(* flatten keeps the consistency of the grouped axes already there (a transpose only reorders the axes) *)
+Lemma transpose_groups_ok rs a r : wf_shape a -> groups_ok a -> transpose rs a = Ok r -> groups_ok r.
+Proof.
+  intros Hw Hg H.
+  assert (Hp : exists p, transpose_pos p a = Ok r).
+  { unfold transpose in H. destruct rs; [eexists; exact H|].
+    destruct (mapM (axis_info a) (a0 :: rs)) as [p|]; simpl in H; [|discriminate]. exists p. exact H. }
+  destruct Hp as [p Hp]. destruct (transpose_pos_spec p a r Hw Hp) as [Hperm [Hlen [_ [Hax _]]]].
+  unfold groups_ok in *. rewrite Hax. apply Forall_forall. intros x Hx. apply in_map_iff in Hx.
+  destruct Hx as [j [<- Hj]]. rewrite Forall_forall in Hg.
+  destruct (Nat.lt_ge_cases j (List.length (axes a))) as [Hlt|Hge].
+  - apply Hg. apply nth_In. exact Hlt.
+  - rewrite nth_overflow by exact Hge. left. reflexivity.
+Qed.
+
+Theorem flatten_groups_ok rs as_set insert a r : WF a -> groups_ok a -> flatten rs as_set insert a = Ok r -> groups_ok r.
+Proof.
+  intros Hw Hg H. unfold flatten in H. cbv zeta in H.
+  destruct (mapM (axis_info a) rs) as [idxs|]; simpl in H; [|discriminate].
+  match type of H with match ?n with [] => _ | _ => _ end = _ => destruct n as [|d0 names'] eqn:En end; [discriminate|].
+  destruct (find_dim (dims a) d0); simpl in H; [|discriminate].
+  match type of H with (let! _ := ?x in _) = _ => destruct x as [ins0|]; simpl in H; [|discriminate] end.
+  match type of H with (if ?c then _ else _) = _ => destruct c; [discriminate|] end.
+  match type of H with (if ?c then _ else _) = _ => destruct c end.
+  - eapply group_at_groups_ok; eassumption.
+  - match type of H with (let! _ := ?x in _) = _ => destruct x as [b|] eqn:Et; simpl in H; [|discriminate] end.
+    eapply group_at_groups_ok; [eapply transpose_wf; eassumption | eapply transpose_groups_ok; [exact (proj1 Hw) | exact Hg | exact Et] | exact H].
+Qed.
+
+(* flatten any dimensions of a well-formed array with consistent groups, then unflatten: still well-formed *)
+Corollary flatten_unflatten_wf rs as_set insert a b r :
+  WF a -> groups_ok a -> flatten rs as_set insert a = Ok b -> unflatten b = Ok r -> WF r.
+Proof.
+  intros Hw Hg Hf Hu. eapply unflatten_wf; [eapply flatten_wf; eassumption | eapply flatten_groups_ok; eassumption | exact Hu].
+Qed.
+
+(* ------------------------------------------------------------------ reshape with grouped names *)
+Lemma unflatten_axes_plain_all axs : Forall (fun ax => amem ax = []) (unflatten_axes axs).
+Proof.
+  induction axs as [|ax t IH]; [constructor|]. cbn [unflatten_axes]. destruct (amem ax) as [|m ms] eqn:Em.
+  - constructor; assumption.
+  - apply Forall_app. split; [|exact IH]. apply Forall_forall. intros x Hx. apply in_map_iff in Hx.
+    destruct Hx as [y [<- _]]. reflexivity.
+Qed.
+Lemma plain_groups_ok a : Forall (fun ax => amem ax = []) (axes a) -> groups_ok a.
+Proof. unfold groups_ok. apply Forall_impl. intros ax H. left. exact H. Qed.
+Lemma unflatten_result_plain a r : unflatten a = Ok r -> Forall (fun ax => amem ax = []) (axes r).
+Proof. unfold unflatten. destruct (negb _); [discriminate|]. intros [= <-]. apply unflatten_axes_plain_all. Qed.
+
+Lemma squeeze_absent_plain ds newdims : forall a r,
+  wf_shape a -> Forall (fun ax => amem ax = []) (axes a) -> squeeze_absent ds newdims a = Ok r ->
+  wf_shape r /\ Forall (fun ax => amem ax = []) (axes r).
+Proof.
+  induction ds as [|d t IH]; intros a r Hw Hp H; cbn [squeeze_absent] in H; [injection H as <-; split; assumption|].
+  destruct (mem_str d newdims); [eapply IH; eassumption|].
+  destruct (squeeze (Some (ByName d)) a) as [a'|] eqn:E; cbn [bind] in H; [|discriminate].
+  destruct (squeeze_axis_spec _ _ _ Hw E) as [i [_ [_ [Hw' [_ [Hax _]]]]]].
+  apply (IH a' r Hw'); [|exact H]. rewrite Hax. apply Forall_forall. intros x Hx. rewrite Forall_forall in Hp.
+  apply Hp. apply (In_remove_nth _ _ _ Hx).
+Qed.
+Lemma add_missing_plain newdims : forall i a r,
+  wf_shape a -> Forall (fun ax => amem ax = []) (axes a) -> add_missing newdims i a = Ok r ->
+  Forall (fun ax => amem ax = []) (axes r).
+Proof.
+  induction newdims as [|d t IH]; intros i a r Hw Hp H; cbn [add_missing] in H; [injection H as <-; exact Hp|].
+  destruct (mem_str d (dims a)); [eapply IH; eassumption|].
+  destruct (newaxis d None (Z.of_nat i) a) as [a'|] eqn:E; cbn [bind] in H; [|discriminate].
+  destruct (newaxis_spec _ _ _ _ Hw E) as [q [_ [_ [_ [Hw' [_ [Hax _]]]]]]].
+  apply (IH (S i) a' r Hw'); [|exact H]. rewrite Hax. apply Forall_forall. intros x Hx. rewrite Forall_forall in Hp.
+  apply In_insert_nth in Hx. destruct Hx as [->|Hx]; [reflexivity | apply Hp; exact Hx].
+Qed.
+
+Lemma group_each_wf newdims : forall i a r, WF a -> groups_ok a -> group_each newdims i a = Ok r -> WF r.
+Proof.
+  induction newdims as [|d t IH]; intros i a r Hw Hg H; cbn [group_each] in H; [injection H as <-; exact Hw|].
+  destruct (split_commas d) as [|x [|y l]]; [| eapply IH; eassumption |].
+  - destruct (flatten _ _ _ a) as [a'|] eqn:E; cbn [bind] in H; [|discriminate].
+    eapply IH; [eapply flatten_wf; eassumption | eapply flatten_groups_ok; eassumption | exact H].
+  - destruct (flatten _ _ _ a) as [a'|] eqn:E; cbn [bind] in H; [|discriminate].
+    eapply IH; [eapply flatten_wf; eassumption | eapply flatten_groups_ok; eassumption | exact H].
+Qed.
+
+Theorem reshape_wf newdims a r : WF a -> groups_ok a -> ~ In "" (flat_map split_commas newdims) -> reshape newdims a = Ok r -> WF r.
+Proof.
+  intros Hw Hg He H. unfold reshape in H.
+  destruct (list_eqb String.eqb newdims (dims a)); [injection H as <-; exact Hw|].
+  destruct (negb (nodupb String.eqb newdims)); [discriminate|].
+  destruct (unflatten a) as [o0|] eqn:E0; cbn [bind] in H; [|discriminate].
+  destruct (negb (nodupb String.eqb (flat_map split_commas newdims))); [discriminate|].
+  destruct (squeeze_absent (dims o0) _ o0) as [o1|] eqn:E1; cbn [bind] in H; [|discriminate].
+  destruct (transpose _ o1) as [o2|] eqn:E2; cbn [bind] in H; [|discriminate].
+  destruct (add_missing _ 0 o2) as [o3|] eqn:E3; cbn [bind] in H; [|discriminate].
+  destruct (group_each newdims 0 o3) as [o4|] eqn:E4; cbn [bind] in H; [|discriminate].
+  destruct (list_eqb String.eqb (dims o4) newdims); [|discriminate]. injection H as <-.
+  pose proof (unflatten_wf _ _ Hw Hg E0) as W0. pose proof (unflatten_result_plain _ _ E0) as P0.
+  pose proof (squeeze_absent_wf _ _ _ _ W0 E1) as W1.
+  destruct (squeeze_absent_plain _ _ _ _ (proj1 W0) P0 E1) as [_ P1].
+  pose proof (transpose_wf _ _ _ W1 E2) as W2.
+  pose proof (transpose_groups_ok _ _ _ (proj1 W1) (plain_groups_ok _ P1) E2) as G2.
+  assert (P2 : Forall (fun ax => amem ax = []) (axes o2)).
+  { assert (Hp : exists p, transpose_pos p o1 = Ok o2).
+    { unfold transpose in E2. destruct (map ByName _) as [|r0 rs]; [eexists; exact E2|].
+      destruct (mapM (axis_info o1) (r0 :: rs)) as [p|]; simpl in E2; [|discriminate]. exists p. exact E2. }
+    destruct Hp as [p Hp]. destruct (transpose_pos_spec p o1 o2 (proj1 W1) Hp) as [_ [_ [_ [Hax _]]]].
+    rewrite Hax. apply Forall_forall. intros x Hx. apply in_map_iff in Hx. destruct Hx as [j [<- _]].
+    destruct (Nat.lt_ge_cases j (List.length (axes o1))) as [Hlt|Hge].
+    - rewrite Forall_forall in P1. apply P1. apply nth_In. exact Hlt.
+    - rewrite nth_overflow by exact Hge. reflexivity. }
+  pose proof (add_missing_wf _ _ _ _ He W2 E3) as W3.
+  pose proof (add_missing_plain _ _ _ _ (proj1 W2) P2 E3) as P3.
+  eapply group_each_wf; [exact W3 | apply plain_groups_ok; exact P3 | exact E4].
+Qed.
